@@ -363,6 +363,9 @@ class H2Client:
             elif name == "datan":
                 sid, data, end = args
                 c.send_data(sid, data, end_stream=end)
+            elif name == "datap":  # padded DATA
+                sid, data, pad, end = args
+                c.send_data(sid, data, end_stream=end, pad_length=pad)
             elif name == "winup":
                 sid, n = args
                 c.increment_flow_control_window(n, stream_id=sid or None)
@@ -405,6 +408,14 @@ class H2Client:
             if name == "rst" and st.closed:
                 return False
             return True
+        if name == "datap":
+            sid = args[0]
+            try:
+                st = self.conn.streams.get(sid)
+                return st is not None and not st.closed and \
+                    self.conn.local_flow_control_window(sid) >= len(args[1]) + args[2] + 1
+            except Exception:
+                return False
         if name in ("datan", "trailers"):
             sid = args[0]
             try:
